@@ -4,7 +4,8 @@ A  proof step: Rpft.Props.C15 (cli_file_iff, cli_error_keeps_file, valid_prefix_
    unterminated_detected, mismatched_detected, balanced_accepted, checkBlocks_ok_iff,
    block_fault_never_masked, row_fault_detected, the limit / argument / index detectors, …)
    re-checked by the kernel against tables regenerated from /repo (limits, HTTP methods,
-   block_end_map, ShutdownHandler threshold, shape of cli.create_flows).
+   block_end_map, ShutdownHandler threshold, shape of cli.create_flows; tables_agree_detection: the LEVEL at
+   which nine detection sites report — behaviour probes — and the word lists they test).
 B  tie: for every injected fault the Lean model's prediction (`cli.predict` on an independent
    abstraction of the faulty workbook: status, file, fault kind, log-vs-exception) against what
    the REAL command did.
@@ -21,6 +22,10 @@ a LATER index row redefines and into definitions that REDEFINE an earlier one (f
 sheets with one new_name, bulk flows, campaigns of one name, a trigger sheet listed twice): the tool
 parses every definition, so the fault must stop the command although the definition would not
 reach the output.
+
+Hostile surroundings: one fault case per class (in a flow that follows valid flows where the class has one) is also run
+with a DIRECTORY named errors.log in the working directory, with a stale errors.log there, with -o naming an existing
+file and with -o inside a directory that does not exist (oracle C only; fault workbooks only).
 """
 from __future__ import annotations
 
@@ -33,7 +38,7 @@ from .. import c15_wb as W
 from .. import core, par
 
 MANIFEST = dict(
-    text="Proof (partial): Lean model of the decision logic of `rpft create_flows` (file iff compilation returned; Except-propagation through index, flows, uuid dictionary, triggers; block-structure machine of _parse_block/_is_end_of_block; value limits; template-argument binding) with theorems for all inputs (any position, any nesting depth): cli_file_iff, cli_error_keeps_file, valid_prefix_irrelevant, unterminated_detected, mismatched_detected, balanced_accepted, checkBlocks_ok_iff (exactly the well-nested sheets pass), block_fault_never_masked, row_fault_detected, overlong_value/category, empty_text, bad_method, malformed_headers, arg_missing, arg_doubly_defined, uuid_conflict, trigger_unknown_flow, missing_sheet, unknown_operation, … ; tied to the code by T1 constants (640/115/36, HTTP methods, block_end_map, CRITICAL threshold, shape of cli.create_flows) and by fault enumeration against the REAL command: 12 valid base workbooks x 22 fault classes x every injection position (quick: sampled), each run as a subprocess with and without a pre-existing output file, predicted by the model (cli.predict). Positions include flow / campaign / trigger definitions that a later index row redefines and definitions that redefine an earlier one (base 'redef'; theorems compileFlows_ok_iff, redefined_later_detected, redefining_earlier_detected: every definition is compiled whether or not it survives in the output) — every flow-level fault class is put into both kinds of position in every tier (strata class×position.*).",
+    text="Proof (partial): Lean model of the decision logic of `rpft create_flows` (file iff compilation returned; Except-propagation through index, flows, uuid dictionary, triggers; block-structure machine of _parse_block/_is_end_of_block; value limits; template-argument binding) with theorems for all inputs (any position, any nesting depth): cli_file_iff, cli_error_keeps_file, valid_prefix_irrelevant, unterminated_detected, mismatched_detected, balanced_accepted, checkBlocks_ok_iff (exactly the well-nested sheets pass), block_fault_never_masked, row_fault_detected, overlong_value/category, empty_text, bad_method, malformed_headers, arg_missing, arg_doubly_defined, uuid_conflict, trigger_unknown_flow, missing_sheet, unknown_operation, … ; tied to the code by T1 constants (640/115/36, HTTP methods, block_end_map, CRITICAL threshold, shape of cli.create_flows) and by fault enumeration against the REAL command: 13 valid base workbooks x 26 fault classes x every injection position (quick: sampled), each run as a subprocess with and without a pre-existing output file, predicted by the model (cli.predict). The five detection sites that used to log at ERROR level (index row of unknown type, wrong outcome condition on an edge leaving a start_new_flow / call_webhook / transfer_airtime row, unknown set_contact_ property, row type not implemented; repaired finding F-C15-a) are ordinary fault classes: modelled in Cli.lean in the order the code reaches them (sheet_name count before the index type; the row parser's KeyError for a type without main argument in a sheet with a message_text column before anything else, so 'not implemented' needs a sheet that spells the main-argument columns out), theorems unknown_index_type_detected/_stops_command, bad_flow_outcome_detected, bad_hook_outcome_detected, unknown_row_type_detected, unknown_contact_property_detected, main_arg_types_known, row_type_key_error_detected, and their report LEVEL is a T1 behaviour probe (tables_agree_detection). One fault case per class is also run in hostile surroundings (errors.log is a directory / stale errors.log in the working directory, -o naming an existing file / a path in a missing directory). Positions include flow / campaign / trigger definitions that a later index row redefines and definitions that redefine an earlier one (base 'redef'; theorems compileFlows_ok_iff, redefined_later_detected, redefining_earlier_detected: every definition is compiled whether or not it survives in the output) — every flow-level fault class is put into both kinds of position in every tier (strata class×position.*).",
     ref="§5 C15",
     note="PARTIAL: process termination mechanics (sys.exit inside a logging handler, uncaught exception, a crash during json.dump) live in the Python runtime and are observed, not proved (C15_full stays a visible def; C15_partial is proved). Trusts: Lean kernel (axioms audited each run), the harness's independent reading of a workbook into the abstract model input, Driver JSON codec, CPython process semantics. Oracle: 'names the problem' is violated only by output that is silent about a problem (no ERROR/CRITICAL record, no traceback/exception text); a report in other words than the model expects for the class is a model/code disagreement (tie break -> search), not a violation.",
     technique="Lean 4 proof (induction over row lists / nesting; Except propagation) + exhaustive fault-class x position enumeration against the real CLI predicted by the model",
@@ -219,38 +224,13 @@ def control_worker(items):
     return out
 
 
-KNOWN_A = "F-C15-a"
-
 # fault classes that can sit inside a flow definition (its sheet, its create_flow row): each must be exercised in
 # both redefinition positions in every tier (self-check in run())
 REDEF_CLASSES = ["unterminated block", "mismatched block", "edge from unknown row", "loop without variable",
                  "go_to wrong number of targets", "go_to unknown target", "missing sheet", "missing data row",
                  "data_row_id without data_sheet", "missing template argument", "empty message text", "over-long value",
-                 "over-long category name", "malformed webhook headers", "invalid webhook method", "conflicting uuids"]
-
-
-def known_cases():
-    """deterministic known-finding stream: problems the tool detects and logs at ERROR level"""
-    import random
-
-    out = []
-    wb = W.base_plain(random.Random(0))
-    w = W.wb_copy(wb)
-    w["sheets"]["content_index"]["rows"].append({"type": "create_flows", "sheet_name": "main"})
-    # pattern = the robust part of the report: an ERROR-level record (and the offending value where the message names one)
-    out.append({"what": "content index row with an invalid type", "wb": w, "pattern": r"^ERROR: [^\n]*create_flows"})
-    w = W.wb_copy(wb)
-    w["sheets"]["main"]["rows"] += [
-        {"row_id": "x1", "type": "start_new_flow", "from": "m8", "message_text": "other flow"},
-        {"row_id": "x2", "type": "send_message", "from": "x1", "condition": "maybe", "message_text": "after"},
-    ]
-    out.append({"what": "edge from start_new_flow with a condition other than Completed/Expired", "wb": w,
-                "pattern": r"^ERROR: [^\n]*start_new_flow"})
-    w = W.wb_copy(W.base_webhook(random.Random(0)))
-    w["sheets"]["hooks"]["rows"][2]["condition"] = "Sucess"
-    out.append({"what": "edge from call_webhook with a condition other than Success/Failure", "wb": w,
-                "pattern": r"^ERROR: [^\n]*call_webhook"})
-    return out
+                 "over-long category name", "malformed webhook headers", "invalid webhook method", "conflicting uuids",
+                 "bad outcome condition", "unknown row type", "unknown contact property"]
 
 
 KNOWN_B = "F-C15-b"
@@ -287,12 +267,14 @@ def known_replaced_campaign_worker(items):
     return out
 
 
-def known_worker(items):
+def hostile_worker(items):
+    """C only (the model has no file system): a fault case run in a hostile working directory / with a hostile -o path"""
     out = []
     for it in items:
-        res = W.run_cli(it["wb"], False)
-        out.append({"what": it["what"], "named": named(it["pattern"], res), "rc": res["rc"], "file": res["out"] is not None,
-                    "observed": slim(res)})
+        c, env = it["case"], it["env"]
+        sentinel = env == "output file exists"
+        res = W.run_cli(c["wb"], sentinel, env=env)
+        out.append({"cls": c["cls"], "env": env, "fails": oracle_fault(c, res, sentinel), "observed": slim(res), "sentinel": sentinel})
     return out
 
 
@@ -302,11 +284,20 @@ def build_cases(bases, tier, rng):
     cases = []
     strata = {}
     n = 0
+    build_cases.first = first = {}     # per fault class: the site for the hostile-environment runs (see hostile_cases)
     for wb in bases:
         _w, a = A.abstract(wb)
         for cls, (gen, kinds, listed) in F.CLASSES.items():
             sites = [(site, wbf, pattern, a.position_of(site)) for site, wbf, pattern in gen(wb, a)]
             strata[f"sites.{cls}"] = strata.get(f"sites.{cls}", 0) + len(sites)
+            # deterministic: the first site of the class in enumeration order — but in base `multi`, whose third flow
+            # sheet `last` follows two valid flows, the first site in THAT sheet takes precedence
+            for site, wbf, pattern, _pos in sites:
+                after_valid = wb["name"] == "multi" and site.get("sheet") == "last"
+                if cls not in first or (after_valid and not first[cls]["after_valid"]):
+                    first[cls] = {"cls": cls, "base": wb["name"], "site": site, "wb": wbf, "pattern": pattern, "after_valid": after_valid}
+                if after_valid:
+                    break
             for s in sites:
                 if s[3]:
                     strata[f"sites.position.{s[3]}"] = strata.get(f"sites.position.{s[3]}", 0) + 1
@@ -363,26 +354,27 @@ def run(ck: core.Check):
             r["condition_name"] = "C" * 115
     bases_ctl = bases + [edge]
     items.append({"wb": edge, "name": edge["name"], "sentinel": False})
+    # controls for the injections that need a sheet without `message_text` column: every base with the main-argument
+    # columns of its flow sheets spelt out is still valid, and so are the outcome words in another capitalisation
+    for b in bases:
+        x = F.with_explicit_columns(b, A.abstract(b)[1])
+        x["name"] = b["name"] + " (main-argument columns spelt out)"
+        bases_ctl.append(x)
+        items.append({"wb": x, "name": x["name"], "sentinel": False})
+    caps = W.wb_copy(next(b for b in bases if b["name"] == "webhook"))
+    caps["name"] = "webhook, outcome words in capitals"
+    for r in caps["sheets"]["hooks"]["rows"]:
+        if r.get("condition") in ("Success", "Failure"):
+            r["condition"] = r["condition"].upper()
+    caps["sheets"]["second"]["rows"].append({"row_id": "s4", "type": "send_message", "from": "s3", "condition": "EXPIRED", "message_text": "late"})
+    bases_ctl.append(caps)
+    items.append({"wb": caps, "name": caps["name"], "sentinel": False})
     for r in [x for sh in par.pmap(control_worker, core.shard(items, par.NPROC)) for x in sh]:
         ck.case(("control", r["name"], r["sentinel"]), sample={"control": r["name"], "flows": r["flows"]})
         ck.count("control runs")
         for f in r["fails"]:
             wb = next(b for b in bases_ctl if b["name"] == r["name"])
             ck.violation(f, {"kind": "control", "workbook": wb, "sentinel": r["sentinel"], "observed": r["observed"]})
-
-    # known-finding stream (deterministic): detected, logged at ERROR level, command goes on
-    kc = known_cases()
-    for it, r in zip(kc, [x for sh in par.pmap(known_worker, [[c] for c in kc]) for x in sh]):
-        ck.case(("known", it["what"]))
-        ck.count("known-finding stream")
-        if r["named"] and r["rc"] == 0 and r["file"]:
-            ck.known(KNOWN_A, "a problem the tool detects and logs at ERROR level (invalid content-index row type, wrong condition on a "
-                     "start_new_flow / call_webhook edge) does not stop the command: status 0 and the output file is written",
-                     {"what": it["what"], "observed": r["observed"]})
-        elif r["named"] and (r["rc"] == 0 or r["file"]):
-            ck.violation("detected problem (ERROR record): status and output file disagree with each other",
-                         {"kind": "fault", "class": "error-level detection", "pattern": it["pattern"], "workbook": it["wb"],
-                          "sentinel": False, "observed": r["observed"]})
 
     # known-finding stream F-C15-b (deterministic): a fault that only CampaignParser.parse() detects, inside a campaign
     # definition that a later row replaces.  Attribution: trigger (replaced definition) + pattern (status 0, file
@@ -411,6 +403,25 @@ def run(ck: core.Check):
     missing = [c for c, (_g, _k, listed) in F.CLASSES.items() if not ck.strata.get(f"cases.{c}")]
     if missing:
         raise core.Infra(f"generator self-check: no case for fault classes {missing}")
+
+    # hostile working directory / log file / output path: one fault case per class (a fault in a flow that follows
+    # valid flows where the class has one), each in every environment of W.HOSTILE_ENVS.  FAULT workbooks only: a
+    # valid workbook legitimately fails where the log file cannot be opened.  Oracle C as everywhere.
+    hostile = [build_cases.first[c] for c in F.CLASSES if c in build_cases.first]
+    items = [{"case": c, "env": e} for c in hostile for e in W.HOSTILE_ENVS]
+    by_cls = {c["cls"]: c for c in hostile}
+    for r in [x for sh in par.pmap(hostile_worker, core.shard(items, par.NPROC * 2)) for x in sh]:
+        c = by_cls[r["cls"]]
+        ck.case(("hostile", r["cls"], r["env"]), sample={"class": r["cls"], "environment": r["env"], "base": c["base"], "site": c["site"]})
+        ck.count("hostile environment." + r["env"])
+        ck.count("hostile environment: fault in a flow that follows valid flows" if c["after_valid"] else "hostile environment: first site of the class")
+        ck.count("subprocess runs")
+        for f in r["fails"]:
+            ck.violation(f"{r['cls']} [{r['env']}]: {f}",
+                         {"kind": "fault", "class": r["cls"], "base": c["base"], "site": c["site"], "pattern": c["pattern"], "env": r["env"],
+                          "sentinel": r["sentinel"], "workbook": c["wb"], "observed": r["observed"]})
+    if len({c["cls"] for c in hostile}) != len(F.CLASSES) or not any(c["after_valid"] for c in hostile):
+        raise core.Infra("generator self-check: hostile-environment subset does not cover every fault class / no fault after a valid flow")
     # … and every fault class that lives in a flow sheet / a create_flow row must have been put into a definition
     # that a later row redefines AND into one that redefines an earlier one
     AB = A.Abstraction
@@ -490,9 +501,9 @@ def replay(path):
     for n, t in W.csv_texts(wb).items():
         print(f"--- {n}.csv\n{t}", end="")
     bad = 0
-    for sentinel in (False, True):
-        res = W.run_cli(wb, sentinel)
-        print(f"--- real command, pre-existing output file: {sentinel}")
+    for sentinel in ((rp["sentinel"],) if rp.get("env") else (False, True)):
+        res = W.run_cli(wb, sentinel, env=rp.get("env"))
+        print(f"--- real command, pre-existing output file: {sentinel}" + (f", environment: {rp['env']}" if rp.get("env") else ""))
         print(json.dumps(slim(res), indent=1, ensure_ascii=False))
         if rp.get("kind") == "control":
             ok = res["rc"] == 0 and res["out"] not in (None, W.SENTINEL)
